@@ -535,7 +535,7 @@ def check_case(ck, sc, case, model_out=None):
             viol(f"output files {obs['writes']}, expected {exp['writes']}")
         elif any(exp["writes"].get(k) != v for k, v in obs["writes"].items()):
             viol(f"unexpected output files {obs['writes']}, expected a subset of {exp['writes']}")
-    if lazy and obs["maxout"] > case["w"]:
+    if lazy and obs["maxout"] > case["w"] and not case.get("wnone"):   # max_workers=None: no bound claimed
         viol(f"{kind} held {obs['maxout']} submitted-but-unconsumed tasks with max_workers={case['w']}")
     oc = model_cfg(case)[0][0]
     over = {f: c for f, c in obs["reads"].items() if c > 1}
